@@ -807,7 +807,7 @@ HIST_STREAM = {"name": "HIST", "quick": 320, "thorough": 8000, "profiles": ["deb
 SCR_STREAM = {"name": "SCR", "quick": 1500, "thorough": 40000, "profiles": ["debug", "release"],
               "nontrivial": lambda c, o: c.split(" ")[2] in ("RICE", "PLANES", "CACHE")}
 HIST_RULE = ("HIST: histories of 2..6 calls on one long-lived thread, each call one of: stream-level encode + write (single thread), the "
-             "same multi-threaded with 2 workers, encode + parse + re-serialise, frame-level encode + write; half of the histories are "
+             "same multi-threaded with 2 workers, encode + parse + re-serialise, frame-level encode + write, a write into a failing sink, and - before a third of the calls - POISONING of every thread-local scratch storage with arbitrary contents of arbitrary sizes (hook poison_scratch: fixed-LPC planes, QLPC error buffer, mid/side buffer, Rice finder scratch, estimator float buffers, CRC scratch sinks); half of the histories are "
              "unrelated calls (ENC generator: 1-8 channels, widths 8..24, block sizes shrinking and growing over 32..1152, random verified "
              "configurations), half are the same call repeated with Tukey parameters closer than 2^-16 to each other (0, 2^-16, 0.1, 0.25, "
              "0.5, 0.75, 0.99998 plus 1e-6 .. 1.5e-5). Observable: FNV-1a of the bytes of every call inside the history and of the same call "
@@ -824,8 +824,8 @@ PROPS["C10"] = {
                  "C10_colliding_key_leaks"],
     "streams": [HIST_STREAM, SCR_STREAM], "rule": HIST_RULE,
     "oracle": hist_oracle,
-    "assumptions": ["PARTIAL: QLPC error buffer, mid/side buffer, estimator float buffers and CRC scratch sinks are covered by the HIST stream "
-                    "(natural histories), not by a stale-content theorem",
+    "assumptions": ["QLPC error buffer, mid/side buffer, estimator float buffers and CRC scratch sinks: no stale-content theorem; covered by the HIST stream "
+                    "with natural histories AND with arbitrary poisoned contents (poison_scratch hook) before calls",
                     "parse calls are exercised through encode + parse + re-serialise; other threads' histories through the multi-threaded call",
                     "the table scratch of the Rice finder is modelled by its active prefix tables[0..nparts] (the code never indexes beyond it)"],
 }
